@@ -7,6 +7,7 @@ import (
 	"fmt"
 	"sort"
 	"strings"
+	"sync"
 	"testing"
 
 	conf "github.com/alibaba/RedisShake/redis-shake/configure"
@@ -209,4 +210,97 @@ func TestVerif_C13(t *testing.T) {
 	ev.Trace(n)
 	ev.Bound("commands", len(names))
 	ev.Bound("arities", "minimum .. minimum+3 key groups, every pass/fail mask, filter none/whitelist/blacklist")
+}
+
+// TestVerif_C13Race: the rewrite must be re-entrant. One parser goroutine runs per source
+// node, so several rewrites overlap in production. Four goroutines run the whole enumeration
+// concurrently under one fixed filter configuration; every result is compared with the
+// sequential result of the same input, and the build is a -race build.
+func TestVerif_C13Race(t *testing.T) {
+	defer ev.Flush("C13")
+	if ev.ReplayFile() != "" {
+		return
+	}
+	si, _ := ev.ShardInfo()
+	if si != 0 {
+		return
+	}
+	conf.Options.FilterKeyWhitelist, conf.Options.FilterKeyBlacklist = []string{"p"}, nil
+	defer func() { conf.Options.FilterKeyWhitelist = nil }()
+	type in struct {
+		cmd  string
+		args [][]byte
+		want string
+	}
+	var inputs []in
+	var names []string
+	for name := range RedisCommands {
+		names = append(names, name)
+	}
+	sort.Strings(names)
+	show := func(a [][]byte, filtered bool) string {
+		s := make([]string, len(a))
+		for i := range a {
+			s[i] = string(a[i])
+		}
+		return fmt.Sprint(filtered, s)
+	}
+	for _, name := range names {
+		spec, ok := c13Ref[name]
+		if !ok {
+			continue
+		}
+		for _, shape := range c13Shapes(spec) {
+			nk := strings.Count(shape, "K")
+			for mask := 0; mask < 1<<uint(nk); mask++ {
+				var args [][]byte
+				ki := 0
+				for i := 0; i < len(shape); i++ {
+					if shape[i] == 'K' {
+						n := fmt.Sprintf("f%d", ki)
+						if mask&(1<<uint(ki)) != 0 {
+							n = fmt.Sprintf("p%d", ki)
+						}
+						ki++
+						args = append(args, []byte(n))
+					} else {
+						args = append(args, []byte(fmt.Sprintf("fv%d", i)))
+					}
+				}
+				cp := make([][]byte, len(args))
+				copy(cp, args)
+				got, filtered := HandleFilterKeyWithCommand(name, cp)
+				inputs = append(inputs, in{name, args, show(got, filtered)})
+			}
+		}
+	}
+	var wg sync.WaitGroup
+	var mu sync.Mutex
+	bad := ""
+	for g := 0; g < 4; g++ {
+		wg.Add(1)
+		go func(g int) {
+			defer wg.Done()
+			for rep := 0; rep < 40; rep++ {
+				for i := range inputs {
+					x := inputs[(i+g*97)%len(inputs)]
+					cp := make([][]byte, len(x.args))
+					copy(cp, x.args)
+					got, filtered := HandleFilterKeyWithCommand(x.cmd, cp)
+					if s := show(got, filtered); s != x.want {
+						mu.Lock()
+						if bad == "" {
+							bad = fmt.Sprintf("%s %q rewritten to %s while other rewrites were running, alone it gives %s", x.cmd, x.args, s, x.want)
+						}
+						mu.Unlock()
+					}
+				}
+			}
+		}(g)
+	}
+	wg.Wait()
+	if bad != "" {
+		ev.Violate("C13|concurrent-rewrite", bad, c13Case{Cmd: "concurrent", Cfg: "white"})
+	}
+	ev.Eval(int64(len(inputs) * 160))
 }
